@@ -20,10 +20,16 @@
        invariants: every augmented row [m | e] satisfies e.A0 = m, and the first c columns are unit columns), hence
        A_inv.(A.b) = b for every b: beta = A_inv.X'y is THE solution of the normal equations (lambda*I + X'X) b = X'y
        whenever they have one (lin_history_beta_is_the_ridge_solution) - "exact per-arm ridge regression".
-    ..._partial: that a solution always exists (positive definiteness for lambda > 0 over an ordered field), and the
-    limit alpha -> 0 of the LinTS draw, are not proved; numpy.linalg.solve is the independent oracle on every run. *)
+     * EXISTENCE (ordered-field laws NumLaws; RidgeExists.v, LinRidge.v): the elimination never reports "singular" on a matrix
+       with trivial kernel (a third loop invariant: the left block annihilates only what A0 annihilates; when the best pivot of
+       column c is 0 an explicit non-zero kernel vector is exhibited), and lambda*I + X'X has a trivial kernel for lambda > 0
+       because v.(lambda*I + X'X).v = lambda*|v|^2 + |Xv|^2; so the per-arm sequence of _RidgeRegression.fit calls never raises
+       LinAlgError, whatever the data.  The ridge matrix is symmetric, hence the left inverse is a right inverse as well and
+       beta SOLVES (lambda*I + X'X) beta = X'y (lin_history_beta_solves_the_normal_equations) - no proviso left.
+    ..._partial: the limit alpha -> 0 of the LinTS draw (needs the law of the multivariate normal) is not proved: the request
+    parameters (mean beta, covariance alpha^2*A_inv) and the linear read-out are; numpy.linalg.solve is the independent oracle on every run. *)
 From Coq Require Import List ZArith Bool Arith QArith Qcanon Permutation.
-From MW Require Import Num Assoc AssocFacts Rng Par CF CFInv CFClean CFForget CFSpec Matrix Lin Warm WarmInv Nbr NbrFacts NbrIndep LshFacts Clu Tree CellFacts Mab FacadeCF FacadeArms MoreFacts NumLaws CFAlg Sim Extra QcInst OrderFacts ExpIrrel LinInv FacadeLin LpInv NbrInv CluTreeInv FacadeAll ToyFacts C09All C10All LinForget LinSim MatrixFacts GaussJordan LinSpec NbrIndepGen CluIndep C17Lin WarmIdem.
+From MW Require Import Num Assoc AssocFacts Rng Par CF CFInv CFClean CFForget CFSpec Matrix Lin Warm WarmInv Nbr NbrFacts NbrIndep LshFacts Clu Tree CellFacts Mab FacadeCF FacadeArms MoreFacts NumLaws CFAlg Sim Extra QcInst OrderFacts ExpIrrel LinInv FacadeLin LpInv NbrInv CluTreeInv FacadeAll ToyFacts C09All C10All LinForget LinSim MatrixFacts GaussJordan LinSpec NbrIndepGen CluIndep C17Lin WarmIdem C14More LshScale TreeLeaf Rename PopSpec CopyFacts StatFacts CluBatch LinWarm RidgeExists LinRidge.
 Import ListNotations.
 
 Theorem C02_init_state :
@@ -52,7 +58,7 @@ Print Assumptions C02_fit_accumulates_normal_equations_partial.
 Theorem C02_history_feeds_each_arm_its_own_rows :
   forall (R A G : Type) (N : Num R) (aeqb : A -> A -> bool),
   (forall x y : A, aeqb x y = true <-> x = y) ->
-  forall (s0 : (@lin R A G)) (g : G) (d0 : list A) (rs0 : list R) (cx0 : (@mat R)) (h : list batch) (a : A),
+  forall (s0 : (@lin R A G)) (g : G) (d0 : list A) (rs0 : list R) (cx0 : (@mat R)) (h : list (@batch R A)) (a : A),
   lin_keys_ok s0 ->
   In a (l_arms s0) ->
   snd (lin_fit N aeqb s0 g d0 rs0 cx0) = true ->
@@ -70,7 +76,7 @@ Theorem C02_history_normal_equations :
   NumLaws N ->
   forall aeqb : A -> A -> bool,
   (forall x y : A, aeqb x y = true <-> x = y) ->
-  forall (s0 : (@lin R A G)) (g : G) (d0 : list A) (rs0 : list R) (cx0 : (@mat R)) (h : list batch) (a : A),
+  forall (s0 : (@lin R A G)) (g : G) (d0 : list A) (rs0 : list R) (cx0 : (@mat R)) (h : list (@batch R A)) (a : A),
   lin_keys_ok s0 ->
   In a (l_arms s0) ->
   l_scale s0 = false ->
@@ -94,8 +100,8 @@ Theorem C02_split_into_fit_and_partial_fit_is_irrelevant :
   NumLaws N ->
   forall aeqb : A -> A -> bool,
   (forall x y : A, aeqb x y = true <-> x = y) ->
-  forall (s0 : (@lin R A G)) (g g' : G) (d0 : list A) (rs0 : list R) (cx0 : (@mat R)) (h : list batch) 
-    (d0' : list A) (rs0' : list R) (cx0' : (@mat R)) (h' : list batch) (a : A),
+  forall (s0 : (@lin R A G)) (g g' : G) (d0 : list A) (rs0 : list R) (cx0 : (@mat R)) (h : list (@batch R A)) 
+    (d0' : list A) (rs0' : list R) (cx0' : (@mat R)) (h' : list (@batch R A)) (a : A),
   lin_keys_ok s0 ->
   In a (l_arms s0) ->
   l_scale s0 = false ->
@@ -157,7 +163,7 @@ Theorem C02_beta_is_the_ridge_solution :
   NumLaws N ->
   forall aeqb : A -> A -> bool,
   (forall x y : A, aeqb x y = true <-> x = y) ->
-  forall (s0 : (@lin R A G)) (g : G) (d0 : list A) (rs0 : list R) (cx0 : (@mat R)) (h : list batch) (a : A) (b : (@vec R)),
+  forall (s0 : (@lin R A G)) (g : G) (d0 : list A) (rs0 : list R) (cx0 : (@mat R)) (h : list (@batch R A)) (a : A) (b : (@vec R)),
   lin_keys_ok s0 ->
   In a (l_arms s0) ->
   l_scale s0 = false ->
@@ -174,6 +180,101 @@ Theorem C02_beta_is_the_ridge_solution :
   vadd N (zeros N d) (xty N d X y) -> r_beta mk = b.
 Proof. exact @lin_history_beta_is_the_ridge_solution. Qed.
 Print Assumptions C02_beta_is_the_ridge_solution.
+
+Theorem C02_elimination_step_keeps_the_kernel_invariant :
+  forall (R : Type) (N : Num R),
+  NumLaws N ->
+  forall (d : nat) (A0 m m' : (@mat R)) (c : nat),
+  wfA d A0 ->
+  (c < d)%nat -> aug_ok N d A0 m -> gj_step N m c = Some m' -> kinv N d A0 m -> kinv N d A0 m'.
+Proof. exact @gj_step_kinv. Qed.
+Print Assumptions C02_elimination_step_keeps_the_kernel_invariant.
+
+Theorem C02_elimination_step_cannot_fail_on_trivial_kernel :
+  forall (R : Type) (N : Num R),
+  NumLaws N ->
+  forall (d : nat) (A0 m : (@mat R)) (c : nat),
+  wfA d A0 ->
+  (c < d)%nat ->
+  aug_ok N d A0 m ->
+  ucol N d m c -> kinv N d A0 m -> trivial_kernel N d A0 -> exists m' : (@mat R), gj_step N m c = Some m'.
+Proof. exact @gj_step_complete. Qed.
+Print Assumptions C02_elimination_step_cannot_fail_on_trivial_kernel.
+
+Theorem C02_model_inverse_exists_for_trivial_kernel :
+  forall (R : Type) (N : Num R),
+  NumLaws N ->
+  forall (d : nat) (a : (@mat R)), wfA d a -> trivial_kernel N d a -> exists E : (@mat R), inverse N d a = Some E.
+Proof. exact @inverse_exists. Qed.
+Print Assumptions C02_model_inverse_exists_for_trivial_kernel.
+
+Theorem C02_ridge_matrix_has_trivial_kernel_for_positive_lambda :
+  forall (R : Type) (N : Num R),
+  NumLaws N ->
+  forall (d : nat) (lam : R) (X : (@mat R)),
+  ltb N (zero N) lam = true ->
+  rows_len d X -> trivial_kernel N d (madd N (mscale N lam (identity N d)) (xtx N d X)).
+Proof. exact @ridge_matrix_trivial_kernel. Qed.
+Print Assumptions C02_ridge_matrix_has_trivial_kernel_for_positive_lambda.
+
+Theorem C02_ridge_inverse_exists :
+  forall (R : Type) (N : Num R),
+  NumLaws N ->
+  forall (d : nat) (lam : R) (X : (@mat R)),
+  ltb N (zero N) lam = true ->
+  rows_len d X ->
+  exists E : (@mat R), inverse N d (madd N (mscale N lam (identity N d)) (xtx N d X)) = Some E.
+Proof. exact @ridge_inverse_exists. Qed.
+Print Assumptions C02_ridge_inverse_exists.
+
+Theorem C02_per_arm_fits_never_meet_a_singular_matrix :
+  forall (R G : Type) (N : Num R),
+  NumLaws N ->
+  forall (d : nat) (lam : R) (bs : list (mat * (@vec R))) (m : (@ridge R G)),
+  ltb N (zero N) lam = true ->
+  r_scaler m = None ->
+  r_A m = mscale N lam (identity N d) ->
+  Forall (fun b : (@mat R) * (@vec R) => rows_len d (fst b)) bs ->
+  exists m' : (@ridge R G), ridge_fits N d m bs = Some m'.
+Proof. exact @ridge_fits_never_singular. Qed.
+Print Assumptions C02_per_arm_fits_never_meet_a_singular_matrix.
+
+Theorem C02_model_inverse_is_a_right_inverse_of_a_symmetric_matrix :
+  forall (R : Type) (N : Num R),
+  NumLaws N ->
+  forall (d : nat) (a E : (@mat R)) (v : list R),
+  wfA d a -> sym N d a -> inverse N d a = Some E -> length v = d -> mat_vec N a (mat_vec N E v) = v.
+Proof. exact @inverse_is_right_inverse. Qed.
+Print Assumptions C02_model_inverse_is_a_right_inverse_of_a_symmetric_matrix.
+
+Theorem C02_ridge_matrix_is_symmetric :
+  forall (R : Type) (N : Num R),
+  NumLaws N ->
+  forall (d : nat) (lam : R) (X : (@mat R)), sym N d (madd N (mscale N lam (identity N d)) (xtx N d X)).
+Proof. exact @ridge_matrix_sym. Qed.
+Print Assumptions C02_ridge_matrix_is_symmetric.
+
+Theorem C02_beta_solves_the_normal_equations :
+  forall (R A G : Type) (N : Num R),
+  NumLaws N ->
+  forall aeqb : A -> A -> bool,
+  (forall x y : A, aeqb x y = true <-> x = y) ->
+  forall (s0 : (@lin R A G)) (g : G) (d0 : list A) (rs0 : list R) (cx0 : (@mat R)) (h : list (@batch R A)) (a : A),
+  lin_keys_ok s0 ->
+  In a (l_arms s0) ->
+  l_scale s0 = false ->
+  snd (lin_fit N aeqb s0 g d0 rs0 cx0) = true ->
+  snd (lin_partials N aeqb (fst (lin_fit N aeqb s0 g d0 rs0 cx0)) g h) = true ->
+  let d := ncols cx0 in
+  let mk := model aeqb (fst (lin_partials N aeqb (fst (lin_fit N aeqb s0 g d0 rs0 cx0)) g h)) a in
+  let bs := arm_batches aeqb a ((d0, rs0, cx0) :: h) in
+  let X := concat (map fst bs) in
+  let y := concat (map snd bs) in
+  bs <> [] ->
+  mat_vec N (madd N (mscale N (l_l2 s0) (identity N d)) (xtx N d X)) (r_beta mk) =
+  vadd N (zeros N d) (xty N d X y).
+Proof. exact @lin_history_beta_solves_the_normal_equations. Qed.
+Print Assumptions C02_beta_solves_the_normal_equations.
 
 Theorem C02_lingreedy_expectation :
   forall (R A G : Type) (N : Num R) (RG : RngOps R G) (s : (@lin R A G)) (m : (@ridge R G)) (g : G) (x : (@mat R)),
@@ -235,5 +336,14 @@ Proof.
   split; [apply lin_keys_ok_init; repeat constructor; simpl; intuition discriminate|].
   split; [left; reflexivity|]. split; [reflexivity|]. split; [vm_compute; reflexivity|]. split; [vm_compute; reflexivity|].
   vm_compute. discriminate.
+Qed.
+
+(* non-vacuity of the existence theorem: its hypotheses hold for a concrete data matrix over the rationals *)
+Example C02_existence_hypotheses_are_met :
+  ltb QcNum (zero QcNum) (q 1) = true /\ rows_len 2 [[q 1; q 2]; [q 3; q 4]] /\
+  exists E, inverse QcNum 2 (madd QcNum (mscale QcNum (q 1) (identity QcNum 2)) (xtx QcNum 2 [[q 1; q 2]; [q 3; q 4]])) = Some E.
+Proof.
+  split; [reflexivity|]. split; [repeat constructor|].
+  apply (ridge_inverse_exists QcNum QcLaws); [reflexivity | repeat constructor].
 Qed.
 
